@@ -422,7 +422,7 @@ def seat_check(prop, tier, seed, work, replay):
     if prop == "C17":
         proof = tlaps_proof(work, "SeatNextProof.tla")
     if prop == "C08" and tier == "thorough":
-        proof = tlaps_proof(work, "SeatBlindsProof.tla")   # 284 obligations, about 75 s: thorough tier only
+        proof = tlaps_proof(work, "SeatBlindsProof.tla")   # 343 obligations, about 90 s: thorough tier only
     mc_cmp = generic_mc(work, "MCSeat.tla", "mcseatcmp", dict(MaxSeats="3", Players="{1,2,3,4}", Props="{}", Ignore="{}"), view="CmpView")
     for m in mcs:
         if not m["ok"]:
